@@ -225,7 +225,7 @@ def _opts(shape, k):
             images[plats[1]] = []          # a declared platform whose image table is (still) empty
 
     return {"layered": k % 3 == 1, "arch": arch, "platforms": plats, "paths": paths, "images": images, "stage2": k % 3, "media": True if k % 2 == 1 else {2: "first", 10: "second"}.get(k, False),
-            "checksums": [["images/boot.iso", "./a//b/../c"][: 1 + k % 2], []][k % 4 // 2]}
+            "checksums": [["images/boot.iso", "./.a//b/../.c", "./a//b/../c"][: 1 + k % 3], []][k % 4 // 2]}          # incl. components that begin with a dot
 
 
 def _focus(shape, opts, k):
